@@ -45,6 +45,7 @@ func Spec() *evid.Spec {
 		Assumptions: []string{
 			"the spec value-check functions (ssv-spec) and SSZ hash-tree-root are the trusted base; the oracle recomputes them independently of /repo",
 			"the fake beacon node's domain is the same for every epoch; far-future slots are judged against the real clock with a margin of ~2^40 slots",
+			"calibration: 'the value its running consensus instance decided for the duty's slot' is read as the decision of the duty-slot height, evidenced by the running instance's decided flag or, when the controller has pushed that instance out of its two-slot container, by the verifiable quorum certificate for (role identifier, height = duty slot) being processed; a second signature for the same object in that state is reported (sig .../evicted-instance-redecided/...)",
 			"queue lane: timeout events and messages addressed to another validator are not pushed (the former bypass the runner wrapper used for quiescence, the latter are routed away by the network layer in production)",
 		},
 		MinNontrivial: 60,
@@ -915,6 +916,7 @@ func (h *hist) finish() {
 		for _, s := range op.Submits {
 			if s.Submit {
 				nsub++
+				c.Count("submission_role_"+s.Role.String(), 1)
 			}
 		}
 	}
